@@ -350,6 +350,25 @@ def d3(cx: Cx, ob: Ob) -> None:
                     nondefault.append(k)
             if nondefault:
                 ob.violate(handler.qualname, handler.where, f"the {fw} handler passes {nondefault} to expand_pair with non-default values: the answer differs from expand()", detail="flags")
+        # other converter methods the handler calls (to word the 422 answer) must not raise
+        from ..analyses.mode import Mode
+
+        mode = Mode(cx)
+        for c, ev, _ in s.calls():
+            if op(c[1]) == "attr" and c[1][1] == conv and c[1][2] not in ("expand_pair", "delimiter"):
+                callee = cx.model.find_method(cx.model.cls("curies.api.Converter", ob.id), c[1][2])
+                if callee is None:
+                    continue
+                ob.site(f"{where(handler, ev.line)} {handler.qualname}", f"{fw}: calls converter.{c[1][2]}(...)")
+                for A2 in mode.callee_assignments(callee, c, {}):
+                    for e in mode.analyse(callee, A2).raises:
+                        ob.violate(
+                            handler.qualname,
+                            where(handler, ev.line),
+                            f"the {fw} handler calls converter.{c[1][2]}({', '.join(k + '=' + show(v) for k, v in c[3] if k)}) on its way to the 422 answer, and that call can raise {e.cls} ({' / '.join(str(v) for v in e.via) or e.origin}): the request is answered 500 instead of 422",
+                            witness="an app built from Converter([]) (filled later with add_prefix) and any unknown prefix",
+                            detail=f"failure-path-raises:{e.cls}",
+                        )
         if not calls:
             continue
         loc = calls[0]
@@ -411,3 +430,18 @@ def x2(cx: Cx, ob: Ob) -> None:
     from ..rules import state_closure
 
     state_closure(cx, ob)
+
+
+@obligation("C17-X7", "IDX (shared with C01/C02): the lookup tables consulted by expand_pair behind the resolver handlers hold every name of every record, unconditionally and completely, on the constructor path and in _index (converters built incrementally answer like freshly built ones)", floor=4)
+def x7(cx: Cx, ob: Ob) -> None:
+    from .c01 import check_table_roles
+
+    check_table_roles(cx, ob, ["prefix_map", "synonym_to_prefix"])
+
+
+@obligation("C17-X6", "LOOKUP None-discipline (shared with C02-D3): lookup results and str|None results are tested with `is None`, never by truthiness - the empty prefix, the empty URI prefix and the empty identifier are legitimate values", floor=40)
+def x6(cx: Cx, ob: Ob) -> None:
+    from ..rules import scan_none_discipline
+    from .c02 import none_scope
+
+    scan_none_discipline(cx, ob, none_scope(cx))
